@@ -16,10 +16,15 @@ REPO = os.environ.get('PYVC_REPO', '/repo')
 
 
 def _prelude():
-    def forall(lo, hi, f):
+    def forall(lo, hi, f, trigger=None):
         return all(f(i) for i in range(lo, hi))
 
-    def exists(lo, hi, f):
+    def forall_n(f, trigger=None):
+        import inspect
+        n = len(inspect.signature(f).parameters)
+        return all(f(*c) for c in itertools.product(range(-1, 40), repeat=n))
+
+    def exists(lo, hi, f, trigger=None):
         return any(f(i) for i in range(lo, hi))
 
     def implies(a, b):
@@ -49,8 +54,26 @@ def _prelude():
 
     def is_int(x):
         return isinstance(x, int) and not isinstance(x, bool)
-    return dict(forall=forall, exists=exists, implies=implies, iff=iff, ite=ite, is_none=is_none, real=real,
+    return dict(forall_n=forall_n, forall=forall, exists=exists, implies=implies, iff=iff, ite=ite, is_none=is_none, real=real,
                 pow2=pow2, floor=floor, seq=seq, is_int=is_int)
+
+
+class _Lazy(ast.NodeTransformer):
+    """implies(a, b) -> (not a) or b ; ite(c, a, b) -> a if c else b  (short-circuit like the logic)"""
+
+    def visit_Call(self, n):
+        n = self.generic_visit(n)
+        if isinstance(n.func, ast.Name) and n.func.id == 'implies' and len(n.args) == 2:
+            return ast.copy_location(ast.BoolOp(ast.Or(), [ast.UnaryOp(ast.Not(), n.args[0]), n.args[1]]), n)
+        if isinstance(n.func, ast.Name) and n.func.id == 'ite' and len(n.args) == 3:
+            return ast.copy_location(ast.IfExp(n.args[0], n.args[1], n.args[2]), n)
+        return n
+
+
+def exec_spec_source(text, glob):
+    tree = _Lazy().visit(ast.parse(text or ''))
+    ast.fix_missing_locations(tree)
+    exec(compile(tree, '<spec-functions>', 'exec'), glob)
 
 
 def import_target(relfile):
@@ -139,17 +162,21 @@ def eval_spec(text, ns, pre_ns, glob):
     return eval(compile(tree, '<spec>', 'eval'), g, ns2)
 
 
-def judge(job, inputs, verbose=False):
+def judge(job, inputs, verbose=False, prebuilt=None):
     """Run the real function on `inputs` (dict param -> JSON value).  Returns (verdict, detail):
     verdict in 'ok' | 'skip' (precondition false) | 'violation'."""
     module = import_target(job['file'])
     glob = _prelude()
-    exec(compile(job.get('spec_source', ''), '<spec-functions>', 'exec'), glob)
+    exec_spec_source(job.get('spec_source', ''), glob)
     args = {}
-    for p, kind in job['params'].items():
-        args[p] = build(kind, inputs.get(p), module)
-    for p, kind in job.get('ghost', {}).items():
-        args[p] = build(kind, inputs.get(p), module)
+    if prebuilt is not None:
+        args = prebuilt
+        inputs = {k: repr(v)[:200] for k, v in prebuilt.items()}
+    else:
+        for p, kind in job['params'].items():
+            args[p] = build(kind, inputs.get(p), module)
+        for p, kind in job.get('ghost', {}).items():
+            args[p] = build(kind, inputs.get(p), module)
     pre_ns = copy.deepcopy(args)
     try:
         for r in job['requires']:
@@ -196,6 +223,10 @@ def judge(job, inputs, verbose=False):
                 return 'violation', detail
         except Exception:
             pass
+    if job.get('ghost_post_native'):
+        # ghost state after the call, computed by the contract's ghost code
+        newg = {g: eval_spec(e, ns, pre_ns, glob) for g, e in job['ghost_post_native'].items()}
+        ns.update(newg)
     for e in job['ensures']:
         try:
             ok = eval_spec(e, ns, pre_ns, glob)
@@ -258,6 +289,30 @@ def domain(kind, depth=0):
 
 def search(job, budget_s=20.0, seed=0, max_cases=20000):
     """Small-scope / seeded random search for an input on which the real code violates the contract."""
+    if job.get('native_gen'):
+        module = import_target(job['file'])
+        g = {}
+        exec(compile(job['native_gen'], '<native_gen>', 'exec'), g)
+        rnd = random.Random(seed)
+        t0 = time.time()
+        tried = 0
+        attempts = 0
+        while tried < max_cases and time.time() - t0 < budget_s and attempts < 50 * max_cases:
+            attempts += 1
+            try:
+                args = g['gen'](rnd, module)
+            except Exception:
+                continue
+            try:
+                v, d = judge(job, None, prebuilt=args)
+            except Exception as e:
+                continue
+            if v == 'skip':
+                continue
+            tried += 1
+            if v == 'violation':
+                return d['inputs'], d, tried
+        return None, None, tried
     names = list(job['params']) + list(job.get('ghost', {}))
     kinds = dict(job['params'])
     kinds.update(job.get('ghost', {}))
@@ -303,6 +358,15 @@ def run(job):
     if job.get('solver_output'):
         print('verifier output: %s' % json.dumps(job['solver_output'])[:2000])
     inp = job.get('input')
+    if job.get('native_gen'):
+        inp2, d, tried = search(job, seed=int(os.environ.get('VERIF_SEED', '0') or 0))
+        print('generator-driven search: %d inputs' % tried)
+        if inp2 is None:
+            print('no failing input found')
+            return 0 if inp is None else 1
+        print('input:', json.dumps(inp2, default=str))
+        print('detail:', json.dumps(d, default=str)[:3000])
+        return 1
     if inp is None:
         inp, d, tried = search(job, seed=int(os.environ.get('VERIF_SEED', '0') or 0))
         if inp is None:
